@@ -621,6 +621,9 @@ func ruleFX1(c *Ctx) *rule {
 			if n == "path/filepath.Join" || n == "path/filepath.Dir" || n == "builtin.append" {
 				continue
 			}
+			if strings.HasPrefix(m.callee, "(*os.File)") && (n == "os.OpenFile" || n == "os.Create") {
+				continue // the handle written to: the roots of the path it was opened on are examined through the call
+			}
 			if strings.HasPrefix(n, modPath) || strings.HasPrefix(n, "("+modPath) || strings.HasPrefix(n, "(*"+modPath) {
 				continue
 			}
@@ -659,6 +662,19 @@ func ruleFX1(c *Ctx) *rule {
 			p := pkgOfCallee(n)
 			if p == modPath || strings.HasPrefix(p, modPath+"/") || p == "" {
 				continue
+			}
+			if site.Common().IsInvoke() && namedOf(site.Common().Value.Type()) == nil {
+				// a method called through an unnamed interface or a type parameter (`[T interface{ String() string }]`): there is
+				// no package to look up, the implementations the call graph finds are what can run
+				ext := false
+				for _, callee := range c.callees(site) {
+					if !inModule(callee) {
+						ext = true
+					}
+				}
+				if !ext {
+					continue
+				}
 			}
 			nExt++
 			extPkgs[p] = true
